@@ -892,7 +892,7 @@ Proof. reflexivity. Qed.
 
 Lemma wf_combos_parts groups size cf kf tf :
   wf_combos groups size cf kf tf = true ->
-  (1 <= size)%nat /\ wf_nfilter_w size cf = true /\ wf_nfilter_w size kf = true /\
+  (2 <= size)%nat /\ wf_nfilter_w size cf = true /\ wf_nfilter_w size kf = true /\
   match tf with None => True
   | Some f => t_w f = size /\ forall row, In row (t_ar f) -> length row = size end /\
   match kf with None => True
@@ -940,7 +940,8 @@ Theorem combos_with_char ct adm groups size ms2 cf kf tf :
               Permutation (concat out) (reported ms2 (passed_seqs adm groups size kf tf)).
 Proof.
   intros Hwf Hadm. destruct (wf_combos_parts _ _ _ _ _ Hwf) as [Hs [Hcf [Hkf [Htf Hk]]]].
-  unfold combinations_with. rewrite (chunks_windows size groups Hs).
+  unfold combinations_with. rewrite (chunks_windows size groups) by lia.
+  replace (size <? 2)%nat with false by (symmetry; apply Nat.ltb_ge; lia).
   assert (HlenW : forall chunk s, In chunk (windows size groups) -> In s (mesh chunk) -> length s = size).
   { intros chunk s Hc Hin. apply (Permutation_in _ (mesh_perm chunk)) in Hin. apply cart_length in Hin.
     rewrite Hin. eapply windows_length; eauto. }
@@ -987,7 +988,7 @@ Proof.
             eapply HlenW; eauto.
         - rewrite filter_true'; auto. }
       rewrite E2. unfold combos1. rewrite filter_filter'. reflexivity. }
-  cbn [opt_bind]. eexists; split; [reflexivity|].
+  cbn [opt_bind]. rewrite andb_false_r. cbn [andb]. eexists; split; [reflexivity|].
   set (L := map (fun chunk => filter pq (mesh chunk)) (filter adm W)).
   assert (HL : Permutation (concat L) (passed_seqs adm groups size kf tf)).
   { unfold L, passed_seqs. fold W. rewrite <- flat_map_concat_map. rewrite flat_map_filter.
